@@ -19,7 +19,8 @@ EXPLANATION = (
     " ROUNDS 5-6: R1-ESCAPES also: the literal digit-count interval of the unicode escape contains 1..=6; R7-DIGIT-TABLES: parse_hex_digit / parse_decimal_digit folded over all 256 bytes (rules/bytefn.py); R1-IDENT-CLASS by folding is_identifier_continuation over the code points 0..0x3FF; C09.R9 shared."
     " ROUND 8: R8-SUFFIX-START: in both digit arms of the second-generation scanner the start of the type suffix (the local handed to span_from) is only set to the current end of the token and never inside a digit/`_` loop whose `_` branch leaves it alone."
     " ROUND 9: R9-FIRST-ERROR-WINS: the per-literal error slot of the second-generation scanner is only filled under `slot.is_none()` (13 sites): the first defect of a quoted literal is the one reported, as by the first generation."
-    " ROUND 10: R3-NEWLINE-CONSUME 'bytes are taken one at a time': only next / peek / next_if are applied to the second-generation scanner's byte iterator (a bulk skip can step over a line feed without the line accounting).")
+    " ROUND 10: R3-NEWLINE-CONSUME 'bytes are taken one at a time': only next / peek / next_if are applied to the second-generation scanner's byte iterator (a bulk skip can step over a line feed without the line accounting)."
+    " ROUND 11: the suffix tables are read through one level of helper (a lookup function shared with the keyword table).")
 
 REF_SUFFIXES = {"i8": "Int8", "i16": "Int16", "i32": "Int32", "i64": "Int64", "i128": "Int128",
                 "u8": "Uint8", "u16": "Uint16", "u32": "Uint32", "u64": "Uint64", "u128": "Uint128", "usize": "Usize"}
